@@ -25,6 +25,9 @@ def plan_common(tier, seed, n_random, n_enum, mols_per_case=6, gens_per_mol=4):
     for i in range(4 if tier == "quick" else 40):
         # end groups of one object that are the same molecule in another atom order (appended last: the cases above keep their seeds)
         cases.append({"kind": "random", "seed": seed * 1000039 + i, "arch": "twinends", "mols": 5, "gens": 4})
+    for i in range(6 if tier == "quick" else 40):
+        # adjacent objects, the first growing through transition lists (appended last: the cases above keep their seeds)
+        cases.append({"kind": "random", "seed": seed * 1000081 + i, "arch": "listblock", "mols": 5, "gens": 4})
     return cases
 
 
